@@ -316,6 +316,39 @@ def signalConnect (s : State) (h : Nat) (d : Option NodePort) : Res State :=
       if s.ctype x.node x.port = s.ctype h 0 then connectInput s h 0 d else .error .assert
     else (setOutputConnectionType s h 0 (s.ctype x.node x.port)).bind fun s1 => connectInput s1 h 0 d
 
+/-- `Node_Arithmetic::updateConnectionType` (Node_Arithmetic.cpp:44-64): the first connected operand gives the type, every further one
+widens it (`max`) and must have the same interpretation; nothing connected: the type stays -/
+def desiredArith (s : State) (h : Nat) : Res CType :=
+  let r : Res (Option CType) := (List.range (s.numIn h)).foldl (fun (acc : Res (Option CType)) i =>
+    acc.bind fun a =>
+      match s.inp h i with
+      | none => .ok a
+      | some d =>
+        let t := s.ctype d.node d.port
+        match a with
+        | none => .ok (some t)
+        | some a => if a.kind = t.kind then .ok (some ⟨a.kind, max a.width t.width⟩) else .error .assert) (.ok none)
+  r.bind fun a => .ok (a.getD (s.ctype h 0))
+
+/-- `Node_Logic::updateConnectionType` for a binary operator (Node_Logic.cpp:242-262) -/
+def desiredLogic (s : State) (h : Nat) : Res CType :=
+  match s.inp h 0, s.inp h 1 with
+  | some l, some r =>
+    if s.ctype l.node l.port = s.ctype r.node r.port then .ok (s.ctype l.node l.port) else .error .assert
+  | some l, none => .ok (s.ctype l.node l.port)
+  | none, some r => .ok (s.ctype r.node r.port)
+  | none, none => .ok (s.ctype h 0)
+
+/-- `Node_Arithmetic::connectInput` (`cls = 1`, Node_Arithmetic.cpp:38-42) / `Node_Logic::connectInput` (`cls = 2`, Node_Logic.cpp:32-36):
+**first** `NodeIO::connectInput`, **then** `updateConnectionType()` → `setOutputConnectionType(0, desired)`. If the second half throws
+(operand interpretations differ, or the output type would change under attached consumers) the operand stays connected: see
+`afterThrow`. -/
+def typedConnect (s : State) (cls h i : Nat) (d : Option NodePort) : Res State :=
+  if ¬ (s.live h ∧ 0 < s.numOut h ∧ (cls = 2 → 2 ≤ s.numIn h)) then .error .ub else
+  (connectInput s h i d).bind fun s1 =>
+    (if cls = 1 then desiredArith s1 h else if cls = 2 then desiredLogic s1 h else .ok (s1.ctype h 0)).bind fun t =>
+      setOutputConnectionType s1 h 0 t
+
 /-! ## BaseNode (Node.cpp) -/
 
 /-- `BaseNode::moveToGroup` (Node.cpp:98-113) -/
@@ -586,6 +619,14 @@ def cullOrphanedSignalNodes (s : State) : Res State :=
   | some (.error e, _, _) => .error e
   | some (.ok s1, v, _) => .ok { s1 with order := v }
 
+/-- two-state property: a connection that exists before and after still sees the output type it was made for ("an output's
+connection type does not change while consumers are attached", the promise of `setOutputConnectionType`) -/
+def TypeStable (prev cur : State) : Prop :=
+  ∀ h, h < cur.size → cur.alive h = true → h < prev.size → prev.alive h = true →
+    ∀ i, i < cur.numIn h → i < prev.numIn h → ∀ d ∈ cur.inp h i, prev.inp h i = some d →
+      cur.ctype d.node d.port = prev.ctype d.node d.port
+instance (prev cur : State) : Decidable (TypeStable prev cur) := by unfold TypeStable; infer_instance
+
 /-! ## Operation language -/
 
 inductive Op where
@@ -612,6 +653,7 @@ inductive Op where
   | destroyClock (c : Nat)
   | setLogicDriver (k c d : Nat)
   | getClockedNodes (c : Nat)
+  | typedConnect (cls h i : Nat) (d : Option NodePort)
 deriving Repr
 
 def step (s : State) : Op → Res State
@@ -639,15 +681,25 @@ def step (s : State) : Op → Res State
   | .destroyClock c => destroyClock s c
   | .setLogicDriver k c d => setLogicDriver s k c d
   | .getClockedNodes c => getClockedNodes s c
+  | .typedConnect cls h i d => typedConnect s cls h i d
 
-/-- run a history; an operation that throws leaves the state as it was (all modelled guards are checked before the first
-mutation) and the history continues, exactly like a caller that catches the exception; `.ub/.abort/.diverge` end it. -/
+/-- the state an operation leaves behind when it throws: all modelled operations check their guards before the first mutation, except
+the typed `connectInput` of arithmetic / logic nodes, which has already connected the operand when `updateConnectionType` throws -/
+def afterThrow (s : State) : Op → State
+  | .typedConnect _ h i d =>
+    match connectInput s h i d with
+    | .ok s1 => s1
+    | .error _ => s
+  | _ => s
+
+/-- run a history; an operation that throws leaves `afterThrow` behind and the history continues, exactly like a caller that catches
+the exception; `.ub/.abort/.diverge` end it. -/
 def run (s : State) : List Op → Res State
   | [] => .ok s
   | op :: ops =>
     match step s op with
     | .ok s1 => run s1 ops
-    | .error .assert => run s ops
+    | .error .assert => run (afterThrow s op) ops
     | .error e => .error e
 
 end Gatery.C09
